@@ -114,7 +114,8 @@ func genClosures(r *rand.Rand, id string, tier string) string {
 			}
 		case 8:
 			// (an error recorded by the user is not a verdict on validity: the closures keep their say)
-			ops = append(ops, []string{"fold 1", "fold 0", "clrerr", "seterr", "seterr"}[r.Intn(5)])
+			// (read-only: installing / removing is refused, but what is installed keeps deciding)
+			ops = append(ops, []string{"fold 1", "fold 0", "clrerr", "seterr", "seterr", "ro 1", "ro 0", "ro 0"}[r.Intn(8)])
 		}
 	}
 	if recv.T == 'K' && r.Intn(2) == 0 {
@@ -215,6 +216,8 @@ func runClosures(payload string) string {
 			case "ro":
 				if isStack {
 					s.SetReadOnly(t[1] == "1")
+				} else {
+					c.SetReadOnly(t[1] == "1")
 				}
 			case "clrerr":
 				if isStack {
